@@ -677,6 +677,8 @@ pub fn worker_c19(tier: &str) {
 
 // ------------------------------------------------------------------ C20
 
+#[allow(dead_code)]
+fn strip_ids_unused() {}
 fn strip_ids(u: &Unifiable) -> Unifiable {
     match u {
         Unifiable::LogicVar { name, .. } => Unifiable::LogicVar { id: 0, name: name.clone() },
